@@ -281,6 +281,49 @@ fn exec_resilient(
     Some(outs)
 }
 
+/// Judge all frames of an item with the reference model (connection table seeded with the
+/// given learned cookies, reset at every Reset command); findings go to the sink.  Returns the
+/// model table after the last command and, per command, whether a reply was produced.
+pub fn judge_item(
+    cfg: &Cfg,
+    model: &Model,
+    seed: &std::collections::HashMap<crate::model::FlowKey, u32>,
+    item: &Item,
+    upto: usize,
+    stage: &str,
+    sink: &mut Sink,
+) -> ModelTable {
+    let fresh = || {
+        let mut t = ModelTable::new();
+        t.cookies = seed.clone();
+        t
+    };
+    let mut tbl = fresh();
+    for (k, (c, o)) in item.cmds.iter().zip(item.outs.iter()).enumerate().take(upto) {
+        match c {
+            Cmd::Reset => tbl = fresh(),
+            Cmd::Frame(f) => {
+                if o.panicked {
+                    continue;
+                }
+                let j = model.judge_out(cfg, &mut tbl, f, o);
+                if !sink.classes.contains(&j.class) {
+                    sink.class(&j.class);
+                    sink.sample(sample_frame(cfg, f, o.reply.as_deref(), &j.class));
+                }
+                if j.abstained.is_some() {
+                    sink.count("abstained", 1);
+                }
+                for fd in j.findings {
+                    push_finding(sink, cfg, &fd, item, k, stage);
+                }
+            }
+            _ => {}
+        }
+    }
+    tbl
+}
+
 /// C01 on every command; model monitor on every frame (fresh reference table per item).
 fn base_oracles(cfg: &Cfg, model: &Model, item: &Item, opts: &RunOpts, sink: &mut Sink) {
     let mut tbl = ModelTable::new();
